@@ -1,6 +1,7 @@
 package c02
 
 import (
+	"fmt"
 	"strings"
 
 	"verif/gm"
@@ -116,6 +117,70 @@ func defBool(d string) string {
 	return "0"
 }
 
+// Twin turns one named index of the base into the pair the differ must match indirectly: in the current ("from") graph
+// the index carries the name the database generates for an unnamed index / UNIQUE constraint, in the desired ("to") graph
+// it has no name. Op: keep (no change expected), drop (absent from the desired graph: DropIndex of the generated name),
+// flip-unique (the unnamed index differs in uniqueness, so it is not similar: DropIndex + AddIndex).
+type Twin struct {
+	Table string `json:"table"`
+	Index string `json:"index"`
+	Gen   string `json:"gen"`
+	Op    string `json:"op"`
+}
+
+// TwinCandidates lists the base indexes that can be given a database-generated name in the dialect.
+func TwinCandidates(d string, s gm.Schema) []Twin {
+	var out []Twin
+	for _, t := range s.Tables {
+		seen := map[string]int{}
+		n := 0
+		for _, ix := range t.Indexes {
+			plain := true
+			var cols []string
+			for _, p := range ix.Parts {
+				if p.Col == "" {
+					plain = false
+				}
+				cols = append(cols, p.Col)
+			}
+			if !plain || len(cols) == 0 {
+				continue
+			}
+			switch d {
+			case "mysql": // c, c_2, c_3 ... by first column
+				seen[cols[0]]++
+				name := cols[0]
+				if seen[cols[0]] > 1 {
+					name = fmt.Sprintf("%s_%d", cols[0], seen[cols[0]])
+				}
+				out = append(out, Twin{Table: t.Name, Index: ix.Name, Gen: name, Op: "keep"})
+			case "postgres": // <table>_<cols>_key for UNIQUE constraints
+				if ix.Unique && ix.Where == "" {
+					out = append(out, Twin{Table: t.Name, Index: ix.Name, Gen: t.Name + "_" + strings.Join(cols, "_") + "_key", Op: "keep"})
+				}
+			case "sqlite": // sqlite_autoindex_<table>_<N> for UNIQUE constraints
+				if ix.Unique && ix.Where == "" {
+					n++
+					out = append(out, Twin{Table: t.Name, Index: ix.Name, Gen: fmt.Sprintf("sqlite_autoindex_%s_%d", t.Name, n), Op: "keep"})
+				}
+			}
+		}
+	}
+	return out
+}
+
+// TwinConflict reports whether a catalogue edit touches a twinned index (its expectation is written for the named index).
+func TwinConflict(st Site, twins []Twin) bool {
+	for _, tw := range twins {
+		for _, o := range st.Owns {
+			if o == tw.Table+".idx:"+tw.Index || o == "drop:"+tw.Table {
+				return true
+			}
+		}
+	}
+	return false
+}
+
 // Site is one catalogue edit at one place, with the objects it owns (for non-interference).
 type Site struct {
 	E    EditRef
@@ -154,8 +219,20 @@ func Conflict(a, b Site) bool {
 	return false
 }
 
-// Sites enumerates every catalogue edit at every applicable site of the schema.
+// Sites enumerates every catalogue edit at every applicable site of the schema, without the additions of unnamed
+// indexes: those exist for the differ only (no planner names them), the other checks that reuse the catalogue plan the edits.
 func Sites(d string, s gm.Schema) []Site {
+	var out []Site
+	for _, st := range AllSites(d, s) {
+		if st.E.Kind != "add-unnamed-index" {
+			out = append(out, st)
+		}
+	}
+	return out
+}
+
+// AllSites is Sites plus the unnamed-index additions.
+func AllSites(d string, s gm.Schema) []Site {
 	var out []Site
 	add := func(e EditRef, owns ...string) { out = append(out, Site{e, owns}) }
 	ty := typesOf(d)
@@ -263,6 +340,7 @@ func Sites(d string, s gm.Schema) []Site {
 				add(EditRef{Kind: "modify-comment", Table: T, Obj: cn, Arg: "new comment"}, key)
 			}
 			add(EditRef{Kind: "add-index", Table: T, Obj: "zz_idx_" + cn, Arg: cn}, key, T+".idx:zz_idx_"+cn)
+			add(EditRef{Kind: "add-unnamed-index", Table: T, Arg: cn}, key)
 			if len(t.PK) == 0 && !c.Null {
 				add(EditRef{Kind: "add-pk", Table: T, Arg: cn}, key, T+".pk")
 			}
